@@ -13,6 +13,9 @@ import (
 
 type srvCase struct {
 	Ops []sop `json:"ops"`
+	// PerDir: message seqnos count per direction from 1, as real clients number them (the two directions of a session
+	// then carry equal numbers); otherwise one counter is shared by all senders and every number is distinct
+	PerDir bool `json:"per_dir,omitempty"`
 }
 
 // ---- C20 ----
@@ -34,11 +37,15 @@ func genC20(t *rapid.T) srvCase {
 				Kind: rapid.SampledFrom([]string{"tampered-body", "tampered-sig", "other-signer", "other-signer-with-key", "unsigned", "other-context", "other-context-verified", "tampered-tail-large"}).Draw(t, "fkind")})
 		}
 	}
-	return srvCase{Ops: out}
+	return srvCase{Ops: out, PerDir: rapid.Bool().Draw(t, "perdir")}
 }
 
 func checkC20(c srvCase) (o vstat.Outcome) {
 	t := newTrace()
+	t.perDir = c.PerDir
+	if c.PerDir {
+		t.classes["equal-seqnos-in-both-directions"] = true
+	}
 	defer func() {
 		o.Classes = append(o.Classes, classList(t.classes)...)
 		if t.regTimeout {
